@@ -29,3 +29,11 @@ check("C05", "exploration",
       "(two-digit years 90-99; beam truncation on eight named-month families), which are reported as KNOWN-FINDING.",
       _D + "; configuration E (max_stack_depth=0) only labels a failure as beam truncation",
       "API call/return monitor, three executions per text; exact-value + reference-time-invariance oracle over a full date sweep", "DESIGN.md 3/C05")
+
+check("C08", "exploration",
+      "Amount and unit exact for N=0..120 in digits x every unit word and every number word of both languages x every unit "
+      "word; '<date[ time]> for N units' against the calendar model over month ends of a leap cycle with N up to several "
+      "years; the contract on the three duration/interval rules is evaluated on every call the search makes (only an N-day "
+      "range is handed back for N days/nights). Held except the two listed beam-truncation families.",
+      _D + "; configuration E only labels beam truncation", 
+      "API call/return monitor + calendar model, plus a run-time contract wrapped around the duration/interval rules", "DESIGN.md 3/C08")
